@@ -148,7 +148,7 @@ Definition step_fuel (F : M → nat) (s : state) (e : event) (fresh : uuid) (bse
   end.
 
 Lemma step_step_fuel s e fresh bserial :
-  step s e fresh bserial = step_fuel (fun m => fuel_for (ms m)) s e fresh bserial.
+  step s e fresh bserial = step_fuel fuel_for s e fresh bserial.
 Proof. reflexivity. Qed.
 
 Lemma handler_good s e fresh bserial :
